@@ -98,16 +98,21 @@ type run struct {
 	activeRefresh int
 	floorNow      map[string]uint32
 	tickFloor     map[string]uint32
-	cancels       map[string]context.CancelFunc
-	viol          []violation
-	secretNil     map[string]bool
-	pending       map[string]time.Duration // thread:name -> begin of an unfinished lookup
-	pendingAtEnd  map[string]time.Duration
-	endAt         time.Duration
-	logAtEnd      int
-	upds          map[string]*setec.Updater[string]
-	updErr        []string
-	teardown      bool
+	// abandonFloor: a Refresh whose caller gave up (context ended) leaves its poll round running; a
+	// later Refresh may join that round, whose values are as old as the round. It is kept until no
+	// single-flight goroutine is alive any more.
+	abandonFloor map[string]uint32
+	abandoned    bool
+	cancels      map[string]context.CancelFunc
+	viol         []violation
+	secretNil    map[string]bool
+	pending      map[string]time.Duration // thread:name -> begin of an unfinished lookup
+	pendingAtEnd map[string]time.Duration
+	endAt        time.Duration
+	logAtEnd     int
+	upds         map[string]*setec.Updater[string]
+	updErr       []string
+	teardown     bool
 }
 
 func (r *run) tickClk() int {
@@ -446,14 +451,27 @@ func (r *run) act(tn string, ctx context.Context, a string) {
 		if r.activeRefresh == 0 {
 			r.floorNow = snap
 		}
+		if r.abandoned && !r.x.LiveMatching("singleflight.go") {
+			r.abandoned, r.abandonFloor = false, nil
+		}
 		r.activeRefresh++
 		rec.floor = minFloor(minFloor(r.floorNow, snap), r.tickFloor)
+		if r.abandoned {
+			rec.floor = minFloor(rec.floor, r.abandonFloor)
+		}
 		r.mu.Unlock()
 		err := r.st.Refresh(ctx)
 		r.mu.Lock()
 		r.clk++
 		rec.end, rec.err, rec.logTo = r.clk, err, r.svc.NReq()
 		r.activeRefresh--
+		if err != nil && ctx.Err() != nil {
+			if r.abandoned {
+				r.abandonFloor = minFloor(r.abandonFloor, rec.floor)
+			} else {
+				r.abandoned, r.abandonFloor = true, rec.floor
+			}
+		}
 		r.refr = append(r.refr, rec)
 		r.mu.Unlock()
 		if err == nil {
